@@ -95,7 +95,9 @@ Verdict ==
        \A k \in 1..Len(C.records) : C.records[k].pos = DonorPos(C.gd, C.lb) /\ C.records[k].accpos = AcceptorPos(C.ga, C.rb))
   /\ Clause("fusion_variant_refs", \A k \in 1..Len(C.records) : FusedRefsOk(C.records[k].d, C.records[k].a))
   /\ Clause("peptides_from_fused_sequence",
-       \A k \in 1..Len(C.peps) : C.peps[k].seq \in FusionPeptides(C.peps[k].d, C.peps[k].a))
+       \A da \in {<<C.peps[k].d, C.peps[k].a>> : k \in 1..Len(C.peps)} :
+          LET FP == FusionPeptides(da[1], da[2])      \* evaluated once per transcript pair
+          IN \A k \in {j \in 1..Len(C.peps) : C.peps[j].d = da[1] /\ C.peps[j].a = da[2]} : C.peps[k].seq \in FP)
   /\ Clause("fusion_peptides_complete",
        C.cvran => \A k \in 1..Len(C.records) : FusionRequired(C.records[k].d, C.records[k].a) \subseteq AllObs)
   /\ PrintT(<<"V", i, "done">>)
